@@ -430,29 +430,19 @@ def parseOperands : List GValue → PRes (List OpArg)
     let as ← parseOperands vs
     pure (a :: as)
 
-/-- The operator table at directives.rs:169–194 (`none` = unknown operator name). -/
+/-- The operator table at directives.rs:169–194. -/
+def filterOpTable : List (String × FilterOp) :=
+  [("is_null", .isNull), ("is_not_null", .isNotNull), ("=", .equals), ("!=", .notEquals),
+   ("<", .lessThan), ("<=", .lessThanOrEqual), (">", .greaterThan), (">=", .greaterThanOrEqual),
+   ("contains", .contains), ("not_contains", .notContains), ("one_of", .oneOf),
+   ("not_one_of", .notOneOf), ("has_prefix", .hasPrefix), ("not_has_prefix", .notHasPrefix),
+   ("has_suffix", .hasSuffix), ("not_has_suffix", .notHasSuffix),
+   ("has_substring", .hasSubstring), ("not_has_substring", .notHasSubstring),
+   ("regex", .regexMatches), ("not_regex", .notRegexMatches)]
+
+/-- `match op.as_ref() { .. }` (`none` = `unknown_op_name`). -/
 def filterOpOfName (op : String) : Option FilterOp :=
-  if op == "is_null" then some .isNull
-  else if op == "is_not_null" then some .isNotNull
-  else if op == "=" then some .equals
-  else if op == "!=" then some .notEquals
-  else if op == "<" then some .lessThan
-  else if op == "<=" then some .lessThanOrEqual
-  else if op == ">" then some .greaterThan
-  else if op == ">=" then some .greaterThanOrEqual
-  else if op == "contains" then some .contains
-  else if op == "not_contains" then some .notContains
-  else if op == "one_of" then some .oneOf
-  else if op == "not_one_of" then some .notOneOf
-  else if op == "has_prefix" then some .hasPrefix
-  else if op == "not_has_prefix" then some .notHasPrefix
-  else if op == "has_suffix" then some .hasSuffix
-  else if op == "not_has_suffix" then some .notHasSuffix
-  else if op == "has_substring" then some .hasSubstring
-  else if op == "not_has_substring" then some .notHasSubstring
-  else if op == "regex" then some .regexMatches
-  else if op == "not_regex" then some .notRegexMatches
-  else none
+  (filterOpTable.find? (fun e => e.1 == op)).map (·.2)
 
 def FilterOp.isUnary : FilterOp → Bool
   | .isNull | .isNotNull => true
